@@ -298,6 +298,11 @@ func init() {
 				items = append(items, explore("C06", sc, b, true))
 			}
 			for _, sc := range FamilyCont(tier) {
+				if strings.HasPrefix(sc.Name, "cont-nodelay-") {
+					// small: the tick that lets the (possibly missing) initial run happen late is a paid deviation
+					items = append(items, explore("C06", sc, b+1, true))
+					continue
+				}
 				if strings.HasSuffix(sc.Name, "-slow") && tier != "thorough" {
 					// many timer-driven threads: every free switch multiplies; one paid deviation instead
 					items = append(items, explore("C06", sc, 1, false))
